@@ -30,6 +30,9 @@ func runC06(c *Ctx, r *Report) {
 	c06R10(c, r, "C06.R10")
 	c06R11(c, r, "C06.R11")
 	c06Masked(c, r, "C06.R12")
+	// "on a proper prefix the matcher asks for more data": the verdict tables contain the proper prefixes of the
+	// small protocols' first messages (a 12-byte signature delivered as 5..11 bytes, a banner without its end, ...)
+	c14Tables(c, r, "C06.R13")
 	c02R1(c, r, "C06.R8")     // the combinators hand a "need more data" answer up unchanged (it is never overwritten by a later set's "no")
 	c02Router(c, r, "C06.R9") // the router never acts on a verdict that is stale for the stream as it is now (fragmented == whole delivery)
 }
